@@ -1,0 +1,23 @@
+//go:build verif
+// +build verif
+
+package server
+
+import (
+	"rcproxy/core"
+	"rcproxy/core/codec"
+)
+
+// VerifRoute calls the real route for a request of the given type and slot and
+// returns its result together with the candidate list it drew from.
+func VerifRoute(h core.EventHandler, typ codec.Command, slot int32) (addr string, isSlave bool, candidates []string) {
+	ls := h.(*listenServer)
+	liveSlaves = liveSlaves[:0]
+	addr, isSlave = ls.route(&core.Msg{Type: typ}, slot)
+	candidates = append(candidates, liveSlaves...)
+	return
+}
+
+// VerifResetAuthCmd clears the package-level AUTH command so that a harness can
+// boot several servers with different passwords in one process.
+func VerifResetAuthCmd() { authCmd = "" }
